@@ -132,7 +132,7 @@ def main_check(pid, tier):
                     violations.append((res, path))
             else:
                 res["verdict"] = "inconclusive"
-                res["message"] = "counterexample did not reproduce on the real code: " + str(rr.get("detail", rr.get("message", "")))[:600] + " | " + str(res.get("message", ""))[:300]
+                res["message"] = "counterexample did not reproduce on the real code: " + str(rr.get("detail", rr.get("message", "")))[-600:] + " | " + str(res.get("message", ""))[:300]
                 inconclusive.append(res)
         else:
             inconclusive.append(res)
